@@ -27,28 +27,52 @@ BAD_VEC_OPS = {"insert", "sort", "sort_by", "sort_by_key", "sort_unstable", "rev
 BAD_ITER_ADAPTERS = ("take", "skip", "step_by", "rev", "take_while", "skip_while", "nth", "last", "peekable", "fuse")
 
 
+def _reachable_bodies(F, root, depth=3):
+    """the function `root` and the local functions / closures it can call, nearest first"""
+    g = scans.call_graph(F.lib)
+    seen, order, frontier = {root}, [root], [root]
+    for _ in range(depth):
+        nxt = []
+        for fn in frontier:
+            for c in sorted(g.get(fn, ())):
+                if c not in seen and F.lib.body(c) is not None and F.lib.body(c).get("hir") is not None:
+                    seen.add(c)
+                    order.append(c)
+                    nxt.append(c)
+        frontier = nxt
+    return order
+
+
 def builtin_table(F):
-    """(table builtin -> variant path, fallthrough arm nf-ish description, site)"""
-    b = F.lib.body(AS_RUST_TYPE)
-    if b is None:
-        return None, None, None
-    nb = Hh.norm_body(b)
-    for x in Hh.exprs(nb["value"]):
-        if x.get("k") == "Match" and len(x["arms"]) > 5:
-            table = {}
-            fall = None
-            for a in x["arms"]:
-                lits = _pat_literals(a["pat"])
-                body = Hh.strip(a["body"])
-                while body.get("k") == "Block" and not body["b"]["stmts"] and body["b"].get("tail"):
-                    body = Hh.strip(body["b"]["tail"])
-                if lits is None:
-                    fall = a
-                    continue
-                var = body.get("path") if body.get("k") == "Path" else None
-                for l in lits:
-                    table[l] = var
-            return table, fall, Hh.sp(x)
+    """(table builtin -> variant path, function holding the table, site): the large `match` on string literals whose arms are
+    RustFieldType variants (bare or wrapped in Some/Ok), in as_rust_type or in a function it calls"""
+    for fn in _reachable_bodies(F, AS_RUST_TYPE):
+        b = F.lib.body(fn)
+        if b is None or b.get("hir") is None or b.get("closure"):
+            continue
+        nb = Hh.norm_body(b)
+        for x in Hh.exprs(nb["value"]):
+            if x.get("k") == "Match" and len(x["arms"]) > 5:
+                table = {}
+                fall = None
+                for a in x["arms"]:
+                    lits = _pat_literals(a["pat"])
+                    body = Hh.strip(a["body"])
+                    while True:
+                        if body.get("k") == "Block" and not body["b"]["stmts"] and body["b"].get("tail"):
+                            body = Hh.strip(body["b"]["tail"])
+                        elif body.get("k") == "Call" and (Hh.callee_path(body) or "").rsplit("::", 1)[-1] in ("Some", "Ok") and len(body["args"]) == 1:
+                            body = Hh.strip(body["args"][0])
+                        else:
+                            break
+                    if lits is None:
+                        fall = a
+                        continue
+                    var = body.get("path") if body.get("k") == "Path" else None
+                    for l in lits:
+                        table[l] = var
+                if sum(1 for v in table.values() if v and "RustFieldType" in v) > 5:
+                    return table, fn, Hh.sp(x)
     return None, None, None
 
 
@@ -129,23 +153,23 @@ def rule_builtins(ck, F, X, rule="R1", want=BUILTINS):
         else:
             ck.violation(rule, f"{b}", site, f"xs:{b} is mapped to {var.rsplit('::', 1)[-1]} which is printed as `{text}`; documented mapping is `{rust}`")
     if rule == "R1":
-        if fall is None:
-            ck.violation(rule, "fallthrough", site, "no fall-through arm for user types")
+        # what a name outside the table becomes: an OtherRustType built in as_rust_type (or in a helper / closure of it) from the
+        # PascalCase local name and the module of the prefix
+        CE = og.CallExpander(F)
+        sites = [x for x in og.field_summaries(F, "field::OtherRustType") if x[0] == AS_RUST_TYPE]
+        good = False
+        descr = []
+        for (fn_, site_, ctx_, fields_, base_) in sites:
+            nm = CE.expand(fields_.get("name", ("unknown", "?")))
+            md = og.nf_str(CE.expand(fields_.get("module", ("unknown", "?"))))
+            chain, _root = og.sanitiser_chain(nm)
+            descr.append(f"name via {chain}, module {md[:60]}")
+            if "to_pascal_case" in chain and ("find_module_name_from_namespace_reference" in md or "rust_mod_name" in md):
+                good = True
+        if good:
+            ck.ok(rule, "fallthrough", site, "non-builtin names become Other{pascal(local name), module of the prefix}")
         else:
-            body = " ".join((Hh.callee_path(y) or "") for y in Hh.exprs(fall["body"]) if y.get("k") in ("Call", "MethodCall")) + " " + \
-                " ".join((y["path"].get("path") or "") for y in Hh.exprs(fall["body"]) if y.get("k") == "Struct")
-            # one level of local helper functions (e.g. a `user_type(..)` constructor function)
-            for y in Hh.exprs(fall["body"]):
-                if y.get("k") == "Call":
-                    hb = F.lib.body(Hh.callee_path(y) or "")
-                    if hb is not None and hb.get("hir") is not None:
-                        hnb = Hh.norm_body(hb)
-                        body += " " + " ".join((Hh.callee_path(z) or "") for z in Hh.exprs(hnb["value"]) if z.get("k") in ("Call", "MethodCall"))
-                        body += " " + " ".join((z["path"].get("path") or "") for z in Hh.exprs(hnb["value"]) if z.get("k") == "Struct")
-            if ("to_pascal_case" in body or "as_type_name" in body) and "OtherRustType" in body:
-                ck.ok(rule, "fallthrough", site, "non-builtin names become Other{pascal(local name), module of the prefix}")
-            else:
-                ck.violation(rule, "fallthrough", site, f"the fall-through arm does not build Other{{to_pascal_case(..), module}}: {body[:120]}")
+            ck.violation(rule, "fallthrough", site, f"as_rust_type does not build Other{{to_pascal_case(..), module of the prefix}} for names outside the table: {descr}")
         ck.floor(rule, "builtin rows", len(table), 27)
 
 
